@@ -1,9 +1,11 @@
-/- Driver ops for PacMan: pac_man.{state,step,judge,instance,bounds} -/
+/- Driver ops for PacMan: pac_man.{state,step,judge,instance,bounds,spec} -/
 import JumanjiModel.Bridge.Json
 import JumanjiModel.Env.PacMan.Model
 import JumanjiModel.Env.PacMan.Bounds
 import JumanjiModel.Env.PacMan.Maze
 import JumanjiModel.Gen.PacManMaze
+import JumanjiModel.Bridge.Spec
+import JumanjiModel.Env.PacMan.SpecLemmas
 open Lean Jb
 
 namespace Jb.PacMan
@@ -57,14 +59,34 @@ def checkShape (s : State) : Except String Unit := do
      s.ghostStarts.length ≠ n || s.ghostActions.length ≠ n then
     throw "per-ghost arrays of different lengths"
 
+def jNValue (v : Sp.NValue) : Json := jList (fun (e : String × Sp.Arr) => jObj [("key", jStr e.1), ("value", SpecOps.jArr e.2)]) v
+
+/-- the configuration of the declared spec, read off the ASCII maze: rows, columns, number of non-wall cells (= rows of
+`pellet_spaces`) -/
+def getSpecCfg (cfg : Json) : Except String (BCfg × Nat) := do
+  let maze := (← getList getStr (← field cfg "maze")).map String.toList
+  pure ({ xSize := maze.length, ySize := (maze.headD []).length, timeLimit := ← fInt cfg "time_limit" },
+        (parse maze).cookies.length)
+
 def opState : Op := fun j => do
   let s ← getState (← field j "state")
   checkShape s
-  pure (jObj [("mask", jBools (maskOf s)),
+  -- wave 3 (C01 / C12), only when the request carries the configuration: the timestep the model's `reset` builds on
+  -- this state, the model observation as spec-level arrays, its membership in the model's `obsSpec`, and the
+  -- invariant `SpecInv` behind `pacman_step_obs_valid`
+  let w3 : List (String × Json) ← match j.getObjVal? "cfg" with
+    | .ok cfg => do
+      let (bc, nP) ← getSpecCfg cfg
+      pure [("reset_ts", jTimeStep jObs (reset s).2),
+            ("nvalue", jNValue (toNValue bc (observe s))),
+            ("obs_in_spec", jBool ((obsSpec bc nP).valid (toNValue bc (observe s)))),
+            ("spec_inv", jBool (decide (SpecInv bc nP s)))]
+    | .error _ => pure []
+  pure (jObj ([("mask", jBools (maskOf s)),
               ("legal", jBools ((List.range 5).map (fun (a : Nat) => decide (legal s a)))),
               ("obs", jObs (observe s)),
               ("consistent", jBool (decide (Consistent s))),
-              ("border_symmetric", jBool (decide (BorderSymmetric s.grid)))])
+              ("border_symmetric", jBool (decide (BorderSymmetric s.grid)))] ++ w3))
 
 def getDraw (j : Json) : Except String Draw := do
   pure { paths := ← fPairs j "paths", actions := ← fInts j "actions" }
@@ -136,7 +158,14 @@ def opBounds : Op := fun j => do
   let jo : Option Rat → Json := fun o => match o with | none => .null | some r => jRat r
   pure (jObj ((obsBounds bc).map (fun (k, lo, hi) => (k, jObj [("lo", jo lo), ("hi", jo hi)]))))
 
+/-- {cfg} → the model's `obsSpec`, `actionSpec`, reward and discount spec in the `speclib.leaf_json` layout -/
+def opSpec : Op := fun j => do
+  let (bc, nP) ← getSpecCfg (← field j "cfg")
+  pure (jObj [("observation_spec", SpecOps.jNested (obsSpec bc nP)), ("action_spec", SpecOps.jLeaf actionSpec),
+              ("reward_spec", SpecOps.jLeaf PzS.rewardSpec), ("discount_spec", SpecOps.jLeaf PzS.discountSpec),
+              ("action_spec_wf", jBool actionSpec.WF), ("generate_value", SpecOps.jArr actionSpec.generate)])
+
 def ops : List (String × Op) :=
-  [("pac_man.bounds", opBounds), ("pac_man.state", opState), ("pac_man.step", opStep), ("pac_man.judge", opJudge),
+  [("pac_man.spec", opSpec), ("pac_man.bounds", opBounds), ("pac_man.state", opState), ("pac_man.step", opStep), ("pac_man.judge", opJudge),
    ("pac_man.instance", opInstance)]
 end Jb.PacMan
